@@ -1,3 +1,4 @@
 (* C06_Proofs.v — collects the proof files of property C06. *)
 From PV Require Export C06.C06_Model C06.C06_RWArith C06.C06_RWProofs C06.C06_RWProofs2 C06.C06_RWProofs3 C06.C06_RWRun C06.C06_RWProofs4.
 From PV Require Export C06.C06_QModel C06.C06_QProofs C06.C06_QProofs2 C06.C06_QProofs3 C06.C06_QProofs4 C06.C06_QProofs5 C06.C06_QProofs6.
+From PV Require Export E3.E3_Run C06.C06_QE3 C06.C06_QE3B C06.C06_QProofs7.
